@@ -86,6 +86,13 @@ def signedSmall (a : Frac) : Bool := a.nt.signed && a.dt.signed && a.nt.bits < 3
 def lowestOk (want : Rat) (r : Frac) (positiveDen : Bool) : Bool :=
   r.d != 0 && value r.n r.d == want && Int.gcd r.n r.d == 1 && (!positiveDen || (r.d > 0 && (r.n, r.d) == (want.num, (want.den : Int))))
 
+/-- histogram suffix: is one of the two products within two bits of the top of the type it is computed in
+(`/tight`), and is that type unsigned (`/uns`)? -/
+def tightSuffix (x y : TV) (x' y' : TV) : String :=
+  let t (p q : TV) : Bool := (p.2 * q.2).natAbs ≥ 2 ^ ((usualArith p.1 q.1).digits - 2)
+  let u := !(usualArith x.1 y.1).signed || !(usualArith x'.1 y'.1).signed
+  (if t x y || t x' y' then "/tight" else "") ++ (if u then "/uns" else "")
+
 def checkC16 (toks : List String) (res : String) : Option Verdict :=
   match toks with
   | ["bin", op, ta, tb, n1, d1, n2, d2] => do
@@ -104,7 +111,9 @@ def checkC16 (toks : List String) (res : String) : Option Verdict :=
         | some r => some (r.d != 0 && value r.n r.d == want)
         | none => some false
       else none
-    some { model := showRes showFrac m, spec := spec, branch := "bin/" ++ op ++ (if guard then "" else if m.isOk then "/unguarded" else "/ub"),
+    some { model := showRes showFrac m, spec := spec, branch := "bin/" ++ op ++ (if guard then
+               (if op == "mul" then tightSuffix a.num b.num a.den b.den else tightSuffix a.num b.den a.den (if op == "div" then b.num else b.den))
+             else if m.isOk then "/unguarded" else "/ub"),
            nontrivial := guard }
   | ["cmp6", ta, tb, n1, d1, n2, d2] => do
     let (an, ad) ← parseFracTy ta; let (bn, bd) ← parseFracTy tb
@@ -115,7 +124,7 @@ def checkC16 (toks : List String) (res : String) : Option Verdict :=
     let want := String.ofList (cmpOps.map (fun o => if cmpRat o (val a) (val b) then '1' else '0'))
     let negs := (if d1 < 0 then "n" else "p") ++ (if d2 < 0 then "n" else "p")
     some { model := m, spec := if guard then some (res == want) else none,
-           branch := "cmp6/" ++ (if guard then negs ++ (if val a == val b then "/equal" else "") else "unguarded"), nontrivial := guard }
+           branch := "cmp6/" ++ (if guard then negs ++ (if val a == val b then "/equal" else "") ++ tightSuffix a.num b.den b.num a.den else "unguarded"), nontrivial := guard }
   | ["un", op, ta, n, d] => do
     let (an, ad) ← parseFracTy ta
     let n ← n.toInt?; let d ← d.toInt?
